@@ -21,6 +21,14 @@ Core Lean only. What is mirrored, field by field:
   modelled by looking the nonce up in the sender list (`cursorAt`).
 * the iterator (`iteratePriority` / `Next`) — `iter`/`drain`, structurally recursive over
   the priority index; `senderCursors` is the per-sender list of not yet yielded entries.
+* the iterator one call at a time — `advance` is `Next()`/`iteratePriority()` literally (mutual
+  recursion unrolled over the remaining priority elements), `Iter` the iterator object,
+  `runIter k` the caller's loop that takes at most `k` transactions and abandons the iterator,
+  `Pool.selectN` = `Select` + that loop.  An `Iter` is a *snapshot* (remaining elements as lists);
+  the Go iterator holds pointers into the live skip lists, so the model is valid as long as no
+  `Insert`/`Remove` happens between `Select` and the last `Next()` — which is how `baseapp`
+  uses it (`mempool.SelectBy`: `for iter != nil && callback(iter.Tx()) { iter = iter.Next() }`,
+  invalid transactions are removed after the loop).
 * `i.priorityNode.Next().Key()` in `Next` dereferences nil when the current node is the last
   one and the candidate's key priority equals `MinValue`; this is the `panic` outcome.
 
@@ -243,6 +251,90 @@ def Pool.select (mp : Pool) : Pool × List Tx × Bool :=
     let mp' := mp.reorder
     (mp', iter mp'.scores mp'.pidx mp'.sidx)
 
+/-! ### the iterator, one `Next()` at a time
+
+`Select` hands out an iterator that the caller advances with `Next()` and may abandon at any
+point (`baseapp`'s `PrepareProposal` stops when the block is full: `mempool.SelectBy` falls back
+to `for iter != nil && callback(iter.Tx()) { iter = iter.Next() }` for this mempool, without
+touching the pool inside the loop).  `advance` is `Next()`/`iteratePriority` literally; `iter`
+above is what exhausting it produces (`runIter_eq_iter` in Props/C19). -/
+
+/-- a non-nil `*PriorityNonceIterator` -/
+structure Iter where
+  /-- `priorityNode` followed by the elements behind it (`priorityNode.Next()`, …) -/
+  nodes : List PNode
+  /-- per sender the entries behind `senderCursors[s]` (the whole sender index if absent) -/
+  rem   : String → List Tx
+  /-- `Tx()` = `senderCursors[sender].Value` -/
+  cur   : Tx
+
+/-- what `Select` / `Next()` return: `nil`, a nil-dereference panic, or the iterator -/
+inductive IterResult where
+  | done
+  | panic
+  | at (it : Iter)
+
+/-- the iterator value is `nil` -/
+def IterResult.isDone : IterResult → Bool
+  | .done => true
+  | _ => false
+
+/-- the call dereferenced nil -/
+def IterResult.isPanic : IterResult → Bool
+  | .panic => true
+  | _ => false
+
+/-- `Tx()` of a non-nil iterator -/
+def IterResult.cur? : IterResult → Option Tx
+  | .at it => some it.cur
+  | _ => none
+
+/-- `Next()` with `priorityNode` = head of the list (`nil` if empty); the recursive calls are
+    `iteratePriority()` (advance `priorityNode`, set `sender`/`nextPriority`, call `Next()`). -/
+def advance (scores : String → Nat → Option Score) :
+    List PNode → (String → List Tx) → IterResult
+  | [], _ => .done
+  | m :: rest, rem =>
+    match rem m.sender with
+    | [] => advance scores rest rem
+    | e :: es =>
+      match passes scores rest.head? m.sender e with
+      | .stop => advance scores rest rem
+      | .panic => .panic
+      | .pass => .at ⟨m :: rest, upd rem m.sender es, e⟩
+
+/-- `it.Next()` -/
+def Iter.next (scores : String → Nat → Option Score) (it : Iter) : IterResult :=
+  advance scores it.nodes it.rem
+
+/-- `for it != nil && n < k { out = append(out, it.Tx()); n++; it = it.Next() }`:
+    what was yielded and the iterator value the loop ends with -/
+def runIter (scores : String → Nat → Option Score) : Nat → IterResult → List Tx × IterResult
+  | _, .done => ([], .done)
+  | _, .panic => ([], .panic)
+  | 0, .at it => ([], .at it)
+  | k + 1, .at it =>
+    let r := runIter scores k (it.next scores)
+    (it.cur :: r.1, r.2)
+
+/-- `Select` alone: the pool after `reorderPriorityTies` and the iterator it returns -/
+def Pool.selectStart (mp : Pool) : Pool × IterResult :=
+  if mp.pidx.isEmpty then (mp, .done)
+  else
+    let mp' := mp.reorder
+    (mp', advance mp'.scores mp'.pidx mp'.sidx)
+
+/-- `Select`, then at most `k` transactions taken from the iterator -/
+def Pool.selectN (mp : Pool) (k : Nat) : Pool × List Tx × IterResult :=
+  let r := mp.selectStart
+  (r.1, runIter r.1.scores k r.2)
+
+/-! ### `TxFeeSkipper` -/
+
+/-- `x/paloma/ante.go: TxFeeSkipper`, the `TxFeeChecker` that `app/app.go` hands to the SDK ante
+    handler: `DeductFeeDecorator` puts this value into `ctx.WithPriority` for every CheckTx -/
+def appCtxPriority : Int := 42
+
 /-! ### histories -/
 
 inductive Op where
@@ -257,5 +349,18 @@ def Pool.step (mp : Pool) : Op → Pool
   | .select => mp.select.1
 
 def run (ops : List Op) : Pool := ops.foldl Pool.step Pool.empty
+
+/-- an operation as the application issues it: `Insert(ctx, tx)` derives the priority from the
+    type URLs of `tx.GetMsgs()` and `ctx.Priority()` -/
+inductive TxOp where
+  | insert (s : String) (n : Nat) (urls : List String) (ctxPrio : Int) (id : Nat)
+  | remove (s : String) (n : Nat)
+  | select
+deriving Repr
+
+def TxOp.toOp : TxOp → Op
+  | .insert s n urls c id => .insert s n (txPriority urls c) id
+  | .remove s n => .remove s n
+  | .select => .select
 
 end Paloma.Mempool
